@@ -56,6 +56,8 @@ type dir struct {
 	dead    bool
 	to      *Codec
 	Latency time.Duration
+	// Burst > 0: a delivery may hand over up to Burst further queued messages at once
+	Burst int
 }
 
 func (d *dir) ID() string { return d.id }
@@ -106,7 +108,51 @@ func (d *dir) DeliverNext() string {
 	default:
 		panic("simcodec: inbox overflow on " + d.id)
 	}
-	return digest(b)
+	out := digest(b)
+	// a burst: the messages queued right behind arrive together with this one (one segment on the wire carries
+	// several frames), the reader finds them without anything else happening in between
+	// (at most one reply per burst: every reply wakes a goroutine that goes on to write, and in which order two of
+	// them write would be up to the Go scheduler; requests start handlers, which park on entry)
+	d.mu.Lock()
+	burst, replies := 0, 0
+	if !isRequest(b) {
+		replies++
+	}
+	for burst < d.Burst && burst < len(d.q) {
+		if !isRequest(d.q[burst]) {
+			if replies == 1 {
+				break
+			}
+			replies++
+		}
+		burst++
+	}
+	d.mu.Unlock()
+	if burst > 0 {
+		if k := d.sim.Choose("burst", burst+1); k > 0 {
+			d.mu.Lock()
+			more := d.q[:k]
+			d.q = d.q[k:]
+			d.mu.Unlock()
+			for _, m := range more {
+				select {
+				case d.to.in <- m:
+				default:
+					panic("simcodec: inbox overflow on " + d.id)
+				}
+				out += " + " + digest(m)
+			}
+			d.sim.Fault("messages_arrive_in_one_burst")
+		}
+	}
+	return out
+}
+
+func isRequest(b []byte) bool {
+	var m struct {
+		Method string `json:"method"`
+	}
+	return json.Unmarshal(b, &m) == nil && m.Method != ""
 }
 
 func digest(b []byte) string {
@@ -151,6 +197,9 @@ func (c *Codec) Name() string { return c.name }
 func (c *Codec) SetLatency(d time.Duration) { c.out.mu.Lock(); c.out.Latency = d; c.out.mu.Unlock() }
 
 func (c *Codec) RemoteAddr() string { return c.addr }
+
+// SetBurst lets up to n further messages written on this end arrive together with the one that is delivered.
+func (c *Codec) SetBurst(n int) { c.out.mu.Lock(); c.out.Burst = n; c.out.mu.Unlock() }
 
 func (c *Codec) closeLocal() { c.once.Do(func() { close(c.closed) }) }
 
